@@ -9,3 +9,6 @@ func raceEnable()             {}
 func raceReleaseMerge(p *int) {}
 func raceAcquire(p *int)      {}
 func RaceErrors() int         { return 0 }
+
+func HarnessRelease(p *int) {}
+func HarnessAcquire(p *int) {}
